@@ -119,7 +119,8 @@ def expected_measure(tname, meas):
 
 def run_transform(ctx, tname):
     rng = ctx.rng
-    nan = tname == 'rank' and bool(rng.integers(2))
+    # missing entries (partial RDMs, a pattern bootstrap) stay missing under the element-wise transforms
+    nan = (tname == 'rank' and bool(rng.integers(2))) or (tname in ('sqrt', 'positive') and bool(rng.integers(3) == 0))
     # (rank transforms see tied whole-number RDMs half of the time: tie-averaged ranks end in .5)
     v, meta = make_rdms(rng, nan=nan, kind='ties' if tname == 'rank' and rng.integers(2) else None)
     params = {}
@@ -262,7 +263,8 @@ def run_invariance(ctx):
             'sqrt': lambda x: np.sqrt(x), 'affine': lambda x: 2.5 * x + 1.0,
             # changes of unit and compressing maps: still strictly increasing (checked in floating point below), the
             # values just become small or close together
-            'tiny_unit': lambda x: x * 1e-12, 'huge_unit': lambda x: x * 1e9, 'compress': lambda x: 1.0 + 1e-7 * x}
+            'tiny_unit': lambda x: x * 1e-12, 'huge_unit': lambda x: x * 1e9, 'compress': lambda x: 1.0 + 1e-7 * x,
+            'si_unit': lambda x: x * 1e-26}     # squared MEG distances in T^2
     mk = gen.pick(rng, list(maps))
     side = int(rng.integers(2))
     src = v1 if side == 0 else v2
